@@ -157,6 +157,23 @@ def check_trace(trace, S, res: Result | None = None):
             viols.append(('views-modify-states-or-events', ''))
     except Exception as e:  # noqa: BLE001
         viols.append((f'prev-next-raise-{type(e).__name__}', str(e)))
+    # the table of an object that has been used for statistics (split into parts) is still the change-log
+    if L >= 4 and len(rows) >= 2:
+        try:
+            from .. import concretise
+
+            M6 = np.eye(3) * 6.0
+            trs = impl.make_transitions(trace, S, events=df, trajectory=concretise.vib_traj(A + 2, L, M6, 1e-15, species=['Li'] * A + ['S', 'P']),
+                                        diff_trajectory=concretise.vib_traj(A, L, M6, 1e-15))
+            try:
+                trs.split(2)
+            except Exception:  # noqa: BLE001  (what split returns is C19's business)
+                pass
+            after = impl.event_rows(trs.events)
+            if after != rows:
+                viols.append(('event-table-of-the-whole-changed-by-splitting-it', f'before={rows} after={after}'))
+        except Exception as e:  # noqa: BLE001
+            viols.append((f'events-after-split-raise-{type(e).__name__}', str(e)))
     return viols, key
 
 
